@@ -348,3 +348,19 @@ package workflow
 //@   opt goroutine terminate
 //@   opt token wg
 //@   requires wfloop(l) && nolocks() && wg != nil && (forall k string :: indom(l.runningSteps, k) ==> l.runningSteps[k] != nil)
+//
+// ---- workflow/executor.go: building the dependency graph (C10, C15, C16) ----
+// dep(d, to, from) is the ghost edge map of the graph library (specs/extern/dgraph.spec).
+//@ pred grows(dag any) = true
+//
+//@ func (*executor).createGroupNode
+//@   requires currentNode != nil && dag != nil && nodedag(currentNode) == dag
+//@   modifies ghost indag, ghost dep, ghost nodestatus
+//@   ensures [group-node-under-the-current-node] result1 == nil ==> result != nil && nodedag(result) == dag && \
+//@        nodeid(result) == nodeid(currentNode) + "." + callres(strings.Join, 1, 0) && indag(dag, nodeid(result)) && !old(indag(dag, nodeid(result))) && \
+//@        dep(dag, nodeid(currentNode), nodeid(result)) == dependencyType
+//@   ensures [group-node-carries-no-data] result1 == nil ==> typeis(nodeitem(result), *DAGItem) && nodeitem(result).(*DAGItem) != nil && \
+//@        nodeitem(result).(*DAGItem).Kind == DagItemKindDependencyGroup && nodeitem(result).(*DAGItem).Data == nil
+//@   ensures [adds-one-node] forall d any, k string :: indag(d, k) != old(indag(d, k)) ==> d == dag && !old(indag(d, k)) && k == nodeid(currentNode) + "." + callres(strings.Join, 1, 0)
+//@   ensures [adds-one-dependency] forall d any, t string, f string :: dep(d, t, f) != old(dep(d, t, f)) ==> \
+//@        d == dag && t == nodeid(currentNode) && f == nodeid(currentNode) + "." + callres(strings.Join, 1, 0) && dep(d, t, f) == dependencyType && result1 == nil
